@@ -214,6 +214,14 @@ prop("C18",
      note="needs to bind 127.0.0.1:389/636 (root); runs are serialised with a lock file; scratch sockets live under /tmp for the duration of the run only")
 
 
+prop("C14",
+     title="The synchronous API is observationally identical to the asynchronous one",
+     rule="a generated script of 2-11 steps over the whole LdapConn/EntryStream surface (simple and SASL EXTERNAL bind, search, streaming_search and streaming_search_with [EntriesOnly, PagedResults, both] read to the end or finished after k next() calls, add, compare, delete, modify, modifydn, extended, abandon, unbind, last_id, is_closed, with_controls / with_timeout / with_search_options before any of them) is executed twice against the same deterministic scripted server (behaviour chosen by the request itself: success, error codes, entries+references with controls, paging, silence with a 60 ms client timeout, disconnect) over a Unix socket pair handed in through StdStream::Unix: once through LdapConn, once through LdapConnAsync/Ldap. Oracle: the two decoded request sequences are equal (SET OF as multisets, raw bytes equal for every request without a SET OF), and the two sequences of results / errors (by class) / stream items / stream end states / last_id / is_closed values are equal. distinct = distinct scripts",
+     claim="held on every generated script of this run (per-operation step counts and requests compared in the evidence)",
+     design="3/C14", technique="differential monitor: one script, two API front-ends, same scripted server; wire transcript and return values compared",
+     note="real sockets and real time (LdapConn owns a private runtime that cannot be paused): timeouts are compared by outcome class only")
+
+
 # ---- properties not (yet) claimed ----
 def _na():
     out = []
